@@ -1,6 +1,7 @@
 package core
 
 import (
+	"bytes"
 	"crypto/sha256"
 	"encoding/json"
 	"fmt"
@@ -100,6 +101,8 @@ type Node struct {
 	Blocks   map[int64]BlockRec
 	// InitReq is the InitChain request the chain was started from.
 	InitReq abci.RequestInitChain
+	// DB is the node's database (bare nodes only): Restart builds a new application over it.
+	DB dbm.DB
 	// Tape, when non-nil, records every block (header + txs) for replays.
 	Tape *Tape
 }
@@ -438,10 +441,29 @@ func NewBareNode(req abci.RequestInitChain, logger log.Logger) *Node {
 		logger = log.NewNopLogger()
 	}
 	encCfg := encoding.MakeConfig(app.ModuleBasics)
-	tp := app.NewTeleport(logger, dbm.NewMemDB(), nil, true, map[int64]bool{}, app.DefaultNodeHome, 0, encCfg, simapp.EmptyAppOptions{})
-	n := &Node{App: tp, ChainID: req.ChainId, TxConfig: encCfg.TxConfig, Blocks: map[int64]BlockRec{}, InitReq: req}
+	db := dbm.NewMemDB()
+	tp := app.NewTeleport(logger, db, nil, true, map[int64]bool{}, app.DefaultNodeHome, 0, encCfg, simapp.EmptyAppOptions{})
+	n := &Node{App: tp, ChainID: req.ChainId, TxConfig: encCfg.TxConfig, Blocks: map[int64]BlockRec{}, InitReq: req, DB: db}
 	tp.InitChain(req)
 	return n
+}
+
+// Restart is a node restart between two blocks: the application object is thrown away and a new one is built over the
+// same database, as after a crash or an operator's restart. Everything that is not in the committed state is gone.
+func (n *Node) Restart() error {
+	if n.InBlock {
+		return fmt.Errorf("restart inside a block")
+	}
+	if n.DB == nil {
+		return fmt.Errorf("node has no database handle")
+	}
+	encCfg := encoding.MakeConfig(app.ModuleBasics)
+	tp := app.NewTeleport(log.NewNopLogger(), n.DB, nil, true, map[int64]bool{}, app.DefaultNodeHome, 0, encCfg, simapp.EmptyAppOptions{})
+	if tp.LastBlockHeight() != n.App.LastBlockHeight() || !bytes.Equal(tp.LastCommitID().Hash, n.App.LastCommitID().Hash) {
+		return fmt.Errorf("restarted application is at %d/%x, the old one was at %d/%x", tp.LastBlockHeight(), tp.LastCommitID().Hash, n.App.LastBlockHeight(), n.App.LastCommitID().Hash)
+	}
+	n.App = tp
+	return nil
 }
 
 // BeginHeader starts a block with a recorded header (replicas).
